@@ -276,6 +276,15 @@ func postC10(res *RunResult) {
 
 func postC11(res *RunResult) {
 	postNoPanic(res)
+	// the File returned with the error holds the messages complete before the cut or fault: it cannot
+	// depend on whether the reader reports its error together with the last bytes or in a call of its
+	// own (the model's results depend on the bytes and the kind of end only: decode_out_eq_spec)
+	type dkey struct {
+		entry, opts, data string
+		fault            bool
+	}
+	type dval struct{ dump, tag, c, out string }
+	firstDelivery := map[dkey]dval{}
 	for i, c := range res.Stats.cases {
 		if res.Stats.setOf[i] != "cuts-and-faults" {
 			continue
@@ -287,6 +296,15 @@ func postC11(res *RunResult) {
 		dr, ok2 := parseDecRes(res.Stats.impl[i])
 		if !ok2 {
 			continue
+		}
+		k := dkey{dc.entry, dc.opts, string(dc.data), strings.Contains(dc.rspec, "f")}
+		if prev, seen := firstDelivery[k]; seen {
+			if prev.dump != dr.dump || (prev.tag == "ok") != (dr.tag == "ok") {
+				addViolation(res, c, res.Stats.impl[i], "the File returned alongside the error depends on how the reader delivered the end of the stream (error with the last bytes vs in a separate call): "+
+					firstDiff(prev.dump, dr.dump)+"; other delivery: "+clipS(prev.c))
+			}
+		} else {
+			firstDelivery[k] = dval{dr.dump, dr.tag, c, res.Stats.impl[i]}
 		}
 		// generic oracle: whatever was cut, an entry point that reports success must have found a
 		// complete frame (decode/integ/chained) inside the bytes it was given
